@@ -97,7 +97,7 @@ def main():
      },
      "engines": [
        {"name": "K", "path": "lib/kv.py", "serves_properties": sorted(CLAIMS), "kind_free_text": "Kani 0.68 / CBMC 6.11 / CaDiCaL bounded model checking of the compiled crates; harnesses in harness/, injected into a scratch copy"},
-       {"name": "M", "path": "lib/mtasks.py", "serves_properties": m_serves, "kind_free_text": "mir2smt: nightly MIR dump -> SMT-LIB (z3, cvc5 cross-check): numeric identities / overflow VCs and glue path terms; thirteen obligations replay a deviation natively, with the clause of the property being checked against the real code before reporting it"},
+       {"name": "M", "path": "lib/mtasks.py", "serves_properties": m_serves, "kind_free_text": "mir2smt: nightly MIR dump -> SMT-LIB (z3, cvc5 cross-check): numeric identities / overflow VCs and glue path terms; fifteen obligations replay a deviation natively, with the clause of the property being checked against the real code before reporting it"},
      ],
      "checks": [],
      "not_applicable": [],
